@@ -33,6 +33,8 @@ CHECKS = {
          'state-machine simulation against a union-find reference model, with restart-through-text and aliasing (purity) faults'),
  'C12': ('Seeded search over simulated inference sessions: models (alpha / exact with a counting calc_func seam, optics from model or data or both, model or data noise, overlap constraints) are evaluated at vectors inside, on and outside the support, giving invalid scatterers or violating the constraint, name-keyed and list-ordered, on full and flattened-subset data and with per-evaluation random pixel subsets (reconstructed from the RNG state at the seam), interleaved with foreign RNG draws; and shipped, as LnpostWrapper.evaluate bound-method pickles through choose_pool, to a simulated pool of real worker processes forked from the master at an earlier point of its history, with seeded dispatch order, duplicate deliveries, worker deaths with retry, unrelated Multisphere / T-matrix / RNG work and an armed solver failure inside workers: every reply must equal the master value bit for bit (or the documented -inf under the solver failure). Local values are checked against an independent closed-form Gaussian posterior built from the public calc_holo.', '5 C12',
          'simulated worker pool (fork, pickled tasks, duplicate / reorder / death faults) + effect counting seam + RNG-seam reconstruction + closed-form reference posterior'),
+ 'C13': ('Seeded search over simulated fitting sessions (both least-squares strategies, full images and seeded / unseeded pixel subsets, Mie and MieLens incl. fitted lens angle): the same fit again on the same objects, another data set on a strategy that has fitted before, the same model on another strategy, result queries, save -> restart -> load -> re-save, under clock jumps between the two time.time() calls of a fit (simulated clock), foreign draws from the global RNG and a KeyboardInterrupt injected inside the n-th forward evaluation of an earlier fit. Fits must be bitwise repeatable, equal the same fit in a pristine interpreter, leave model and data unchanged and the strategy reusable; a cancellation must propagate (and the fit must return: bounded liveness); the result must be consistent with the forward model at the reported parameters, and reload to an equivalent result. Fixed point, misfit monotonicity, prior bounds and single-sphere recovery are evaluated on the same histories.', '5 C13',
+         'history simulation with clock / RNG / cancellation faults and restart, pristine-node refinement of whole fits, reload pairs'),
 }
 
 def main():
